@@ -31,7 +31,10 @@ CLAIM = dict(
     "(vector component a / tensor diagonal a,a), shape dispatch table, full reconstruction keeps the normal component. Tie: exact equality "
     "model = implementation on all 186 shapes x dyadic voxel sizes x dyadic data for every operator, the driver evaluating the operational "
     "tables (assembled matrix for the smaller grids, accumulated reconstruction always), all forms of the voxel-size argument, the shape "
-    "dispatch of cell_to_face_average incl. rejected layouts, zero / negative data for the harmonic mean.",
+    "dispatch of cell_to_face_average incl. rejected layouts, zero / negative data for the harmonic mean, raising paths of FVMass (mode / lumping) and of "
+    "the averaging mode (massGuard, avgModeOf). ORACLE: lower/upper cell, face axis and the faces of a cell are computed from shape arithmetic "
+    "(own_tables), not read from the grid, so orientation and adjacency are asserted here independently of C07; the tangential clause is tested "
+    "under the theorem's hypothesis (flux constant on ONE axis only, random elsewhere).",
     note="scipy.sparse assembly and numpy slice += are modelled as accumulation through index arrays (accumN); numpy slicing + ravel('F') of the "
     "index arrays pointwise; harmonic mean compared to 4 ulp (scipy hmean divides); in 1-D the dispatch is observable only as accepted/rejected.",
     technique="Lean 4 proof (finite sums by induction, indicator sums over the numbering bijection, accumulation lemmas) + exhaustive-in-range exact correspondence",
@@ -58,6 +61,27 @@ def sep(parts):
 
 def dy(rng, n, lo=-16, hi=16, den=8):
     return np.array([rng.randint(lo, hi) / den for _ in range(n)], dtype=float)
+
+
+def own_tables(shape):
+    """faces of a tensor grid from shape arithmetic alone (DarSIA's numbering: axis-major, Fortran order): per face
+    (axis, lower cell, upper cell); and per (axis, cell) the lower / upper face or -1. Independent of the implementation."""
+    dim = len(shape)
+    nc = int(np.prod(shape))
+    faces = []
+    rev = -np.ones((dim, nc, 2), dtype=int)
+    for a in range(dim):
+        fs = list(shape)
+        fs[a] -= 1
+        for k in range(int(np.prod(fs))):
+            idx = list(np.unravel_index(k, fs, order="F"))
+            lo = int(np.ravel_multi_index(idx, shape, order="F"))
+            idx[a] += 1
+            hi = int(np.ravel_multi_index(idx, shape, order="F"))
+            rev[a, lo, 1] = len(faces)
+            rev[a, hi, 0] = len(faces)
+            faces.append((a, lo, hi))
+    return faces, rev
 
 
 def face_axis(g, f):
@@ -159,9 +183,14 @@ def oracle(ctx, d, shape, hs, rng, exact):
             U = np.array([rng.uniform(-2, 2) for _ in range(nf)])
             Pc = np.array([rng.uniform(-2, 2) for _ in range(nc)])
         rp.update(flux=U.tolist(), field=Pc.tolist())
-        conn = np.asarray(g.connectivity)
+        # orientation, adjacency and face axis come from shape arithmetic (own_tables), NOT from the grid's own tables: the lower
+        # cell of a face is the one with the smaller index along the face's normal axis
+        own_faces, own_rev = own_tables(shape)
+        if len(own_faces) != nf:
+            return fail("num_faces", f"num_faces={nf}, shape arithmetic gives {len(own_faces)}")
+        conn = np.array([[lo, hi] for (_, lo, hi) in own_faces], dtype=int).reshape(nf, 2)
+        fax = np.array([a for (a, _, _) in own_faces], dtype=int)
         areas = np.array([np.prod([hs[b] for b in range(dim) if b != a]) for a in range(dim)] or [1.0])
-        fax = np.array([face_axis(g, f) for f in range(nf)], dtype=int)
         # 1. divergence = net outflow
         D = d.FVDivergence(g).mat
         div = np.asarray(D @ U).ravel()
@@ -194,7 +223,7 @@ def oracle(ctx, d, shape, hs, rng, exact):
             if M.shape != (n, n) or not close(M, v * np.eye(n), v, exact):
                 return fail(f"mass_diag:{mode}", f"FVMass({mode}) is not prod(voxel_size)*I = {v}*I")
         # 5. RT0 interpolation
-        rev = np.asarray(g.reverse_connectivity)
+        rev = own_rev
         pts = [None, np.zeros(dim), np.ones(dim), np.array([rng.choice((0.0, 0.25, 0.5, 0.75, 1.0)) if exact else rng.random() for _ in range(dim)])]
         for pt in pts:
             cf = d.face_to_cell(g, U, None if pt is None else (pt.copy() if dim > 1 else float(pt[0])))
@@ -246,6 +275,22 @@ def oracle(ctx, d, shape, hs, rng, exact):
                 for f in np.asarray(g.interior_faces[a], dtype=int).ravel():
                     if not all(float(t[f]) == k for t in tan) or not np.all(full[f] == k):
                         return fail("tangential_const", f"constant flux {k}: reconstruction at interior face {int(f)} (axis {a}) gives {full[f].tolist()}", face=int(f), axis=a)
+            # the theorem's hypothesis: constant ONLY on the faces of one axis b, arbitrary elsewhere -> component b of the
+            # reconstruction at the interior faces of every other axis a is that constant (and nothing is said about the rest)
+            R = d.FVFullFaceReconstruction(g)
+            for b in range(dim):
+                kb = rng.choice((0.75, -1.25, 2.5))
+                Ut = dy(rng, nf) if exact else np.array([rng.uniform(-2, 2) for _ in range(nf)])
+                Ut[fax == b] = kb
+                fr = np.asarray(R(Ut))
+                for a in range(dim):
+                    if a == b:
+                        continue
+                    own_interior = [f for f in range(nf) if fax[f] == a and all(own_rev[bb, c, sd] != -1 for bb in range(dim) if bb != a for c in conn[f] for sd in (0, 1))]
+                    for f in own_interior:
+                        if float(fr[f, b]) != kb:
+                            return fail("tangential_const", f"flux equal to {kb} on all faces of axis {b} (random elsewhere): component {b} of the reconstruction at interior face "
+                                        f"{int(f)} of axis {a} is {float(fr[f, b])!r}", face=int(f), axis=a, tangential_axis=b, flux=Ut.tolist())
             # and the normal component is kept
             fu = np.asarray(d.FVFullFaceReconstruction(g)(U))
             if fu.shape != (nf, dim) or any(fu[f, fax[f]] != U[f] for f in range(nf)):
@@ -299,9 +344,8 @@ def run(ctx):
     n_h = ctx.pick(1, 3)
     n_fields = ctx.pick(1, 3)
     dense_cap = ctx.pick(6000, 10 ** 9)
-    asm_cap = ctx.pick(250, 700)
+    asm_cap = ctx.pick(700, 3000)  # assembled (COO-summed) matrix dumped up to this num_cells*num_faces
     lines, impl = [], []
-    one_d_accept = []
     hlines, himpl_vals = [], []
 
     def add(line, fn):
@@ -439,18 +483,24 @@ def run(ctx):
                     obs = "tensor"
                 else:
                     obs = "!unrecognised"
-            lines.append(f"c2fshape {dim} {len(tr)} " + " ".join(map(str, tr)))
             if obs is None:
-                # 1-D: replace the model's kind by "accepted"
+                # 1-D: every reading gives the same number, only accepted / rejected is observable: the model answers the same question
+                lines.append(f"c2fshapeok {dim} {len(tr)} " + " ".join(map(str, tr)))
                 impl.append("accepted")
-                one_d_accept.append(len(lines) - 1)
             else:
+                lines.append(f"c2fshape {dim} {len(tr)} " + " ".join(map(str, tr)))
                 impl.append(obs)
-    # 1-D dispatch lines: the model's kind is only observable as "accepted"
-    got_1d = ctx.model([lines[i] for i in one_d_accept]) if one_d_accept else []
-    for i, gm in zip(one_d_accept, got_1d):
-        if not gm.strip().startswith("!"):
-            impl[i] = gm.strip()  # accepted by both: equal by construction; a rejection by the model shows as a difference
+    # raising paths of the constructors / mode arguments (error class as data)
+    g0 = call(d.Grid, (2, 2), [1.0, 1.0])
+    if not isinstance(g0, Raised):
+        for mode, lump in (("cells", True), ("cells", False), ("faces", True), ("faces", False), ("edges", True), ("", True)):
+            r = call(d.FVMass, g0, mode, lump)
+            lines.append(f"massguard {mode or '-'} {int(lump)}")
+            impl.append(repr(r) if isinstance(r, Raised) else "ok")
+        for mname in ("arithmetic", "harmonic", "geometric", "Arithmetic", ""):
+            r = call(d.cell_to_face_average, g0, np.ones((2, 2)), mname)
+            lines.append(f"c2fmode {mname or '-'}")
+            impl.append(repr(r) if isinstance(r, Raised) else "ok")
     ctx.correspond("fv-operators-exact", lines, impl)
 
     # harmonic mean: numeric comparison (scipy's hmean divides, so not exact even on dyadic data)
